@@ -3,6 +3,15 @@
 // Contracts for package client (UDP/DTLS connection; checked by /verif/govc; comment-only, compiled only with -tags verif).
 package client
 
+// Fields of a connection that are set by the constructor and never assigned again:
+//
+//@ immutable Conn.tokenHandlerContainer
+//@ immutable Conn.midHandlerContainer
+//@ immutable Conn.observationHandler
+//@ immutable Conn.msgIDMutex
+//@ immutable Conn.session
+//@ immutable Conn.receivedMessageReader
+//
 // ---- C06: retransmission of confirmable requests -------------------------------------------------
 //
 // A pending confirmable (midElement) is retransmitted by the housekeeping tick only while it is not
@@ -69,9 +78,17 @@ package client
 //@ func (MessageCache) Store(key string, msg *pool.Message) (err error)
 //@   trusted
 //
+// handle (dispatch by token, proved under C03): the application handlers it reaches are arbitrary.
+//
 //@ func (*Conn) handle(w *responsewriter.ResponseWriter, m *pool.Message)
-//@   trusted
-//@   modifies *w.response, *m
+//@   requires cc != nil && m != nil && cc.tokenHandlerContainer != nil && cc.observationHandler != nil && cc.observationHandler.observations != nil
+//@   modifies anything
+//@   opaque-calls pure
+//@   ensures [keeps-writer] w != nil ==> w.response == old(w.response)
+//@   ensures [separate-dropped] callRes(IsSeparateMessage, 0, 0) ==> notCalled(LoadAndDelete) && notCalled(Handle) && notCalled(opaque)
+//@   ensures [one-shot-by-own-token] !callRes(IsSeparateMessage, 0, 0) && old(cc.blockWise) == nil ==> callCount(LoadAndDelete) == 1 && callCount(Token) == 1 && callArg(Token, 0, 0) == m && callCount(Hash) == 1 && callArg(Hash, 0, 0) == callRes(Token, 0, 0) && callArg(LoadAndDelete, 0, 1) == callRes(Hash, 0, 0)
+//@   ensures [to-its-continuation] called(LoadAndDelete) && callRes(LoadAndDelete, 0, 1) ==> callCount(opaque) == 1 && callFn(opaque, 0) == callRes(LoadAndDelete, 0, 0) && callArg(opaque, 0, 0) == w && callArg(opaque, 0, 1) == m && notCalled(Handle)
+//@   ensures [else-observations] called(LoadAndDelete) && !callRes(LoadAndDelete, 0, 1) ==> notCalled(opaque) && callCount(Handle) == 1 && callArg(Handle, 0, 1) == w && callArg(Handle, 0, 2) == m
 //
 //@ func (*Conn) GetMessageID() (m int32)
 //@   trusted
@@ -123,7 +140,7 @@ package client
 //
 //@ func (*Conn) handleReq(w *responsewriter.ResponseWriter, req *pool.Message)
 //@   opaque-calls pure
-//@   requires cc != nil && req != nil && w != nil && w.response != nil && w.response != req && cc.msgIDMutex != nil
+//@   requires cc != nil && req != nil && w != nil && w.response != nil && w.response != req && cc.msgIDMutex != nil && cc.tokenHandlerContainer != nil && cc.observationHandler != nil && cc.observationHandler.observations != nil
 //@   modifies anything
 //@   ensures [lock-key] callCount(Lock) == 1 && payload(callArg(Lock, 0, 1)) == old(req.msg.MessageID)
 //@   ensures [unlock] callCount(Unlock) == 1 && callArg(Unlock, 0, 0) == callRes(Lock, 0, 0)
@@ -154,7 +171,7 @@ package client
 //
 //@ func (*Conn) AcquireMessage(ctx context.Context) (m *pool.Message)
 //@   trusted
-//@   ensures m != nil
+//@   ensures m != nil && fresh(m) && len(m.msg.Options) == 0 && (cap(m.bufferUnmarshal) == 0 || fresh(m.bufferUnmarshal)) && (cap(m.msg.Options) == 0 || fresh(m.msg.Options))
 //
 //@ func (*Conn) Sequence() (s uint64)
 //@   trusted
@@ -166,8 +183,132 @@ package client
 //@   trusted
 //
 //@ func (*Conn) Process(cm *coapNet.ControlMessage, datagram []byte) (err error)
-//@   requires cc != nil
+//@   requires cc != nil && len(datagram) < 1099511627776
 //@   modifies anything
 //@   opaque-calls pure
 //@   ensures [every-message-counts] called(UnmarshalWithDecoder) && callRes(UnmarshalWithDecoder, 0, 1) == nil && called(requestMonitor) && callRes(requestMonitor, 0, 1) == nil && !callRes(requestMonitor, 0, 0) ==> called(Notify)
 //@   ensures [counts-before-consumed] called(handleSpecialMessages) ==> called(Notify) && callSeq(Notify, 0) < callSeq(handleSpecialMessages, 0)
+
+// ---- C03: a response reaches exactly the request that carries its token -----------------------------
+//
+// Waiting requests are registered in tokenHandlerContainer under the hash of their token. A second
+// request with a token that is still outstanding is refused and leaves the first registration alone;
+// every registration is removed when the call returns; an incoming message is handed to the
+// continuation registered under the hash of ITS token, which is removed by that very step (one-shot),
+// and to nobody else.
+//
+// Assumed contracts (unverified surroundings):
+//
+// The continuation of a waiting request: the response is hijacked (kept out of the pool) and offered
+// to the waiting call without blocking.
+//
+//@ func (*Conn) doInternal$1(w *responsewriter.ResponseWriter, r *pool.Message)
+//@   requires r != nil
+//@   modifies anything
+//@   ensures [keeps-response] callCount(Hijack) == 1 && callArg(Hijack, 0, 0) == r
+//@   ensures [offers-it] callCount(select) == 1 && callSeq(Hijack, 0) < callSeq(select, 0)
+//
+//@ func (*Conn) doInternal(req *pool.Message) (resp *pool.Message, err error)
+//@   requires cc != nil && req != nil && cc.tokenHandlerContainer != nil && cc.midHandlerContainer != nil
+//@   modifies anything
+//@   opaque-calls pure
+//@   signal-channels
+//@   ensures [registers-at-most-once] callCount(LoadOrStore) <= 1
+//@   ensures [no-token-refused] notCalled(LoadOrStore) ==> err != nil && notCalled(writeMessage)
+//@   ensures [outstanding-token-refused] called(LoadOrStore) && callRes(LoadOrStore, 0, 1) ==> err != nil && notCalled(writeMessage) && notCalled(LoadAndDelete)
+//@   ensures [registration-removed] called(LoadOrStore) && !callRes(LoadOrStore, 0, 1) ==> callCount(LoadAndDelete) == 1 && callArg(LoadAndDelete, 0, 0) == callArg(LoadOrStore, 0, 0)
+//@   ensures [sent-after-registration] called(writeMessage) ==> callSeq(LoadOrStore, 0) < callSeq(writeMessage, 0) && callArg(writeMessage, 0, 1) == req && callSeq(writeMessage, 0) < callSeq(LoadAndDelete, 0)
+//@   ensures [own-response] called(select) && err == nil ==> callRes(select, 0, 0) == 2 && resp == callRes(select, 0, 4)
+//@   ensures [exclusive-result] err != nil ==> resp == nil
+
+// ---- C06 / C13: entering a confirmable into the pending table ----------------------------------------
+//
+// prepareWriteMessage: a confirmable request gets a PRIVATE clone (what is retransmitted later), takes
+// its NSTART slot BEFORE its retransmission clock starts, is entered under its own message ID, and a
+// failed entry gives the slot back at once. The clean-up that is returned removes exactly that entry.
+//
+//@ func (*Conn) acquireOutstandingInteraction(ctx context.Context) (err error)
+//@   trusted
+//
+//@ func (*Conn) releaseOutstandingInteraction()
+//@   trusted
+//
+//@ func (*Conn) prepareWriteMessage$1()
+//@   requires cc != nil
+//@   modifies anything
+//@   ensures [gives-slot-back] callCount(releaseOutstandingInteraction) == 1
+//
+//@ func (*Conn) prepareWriteMessage$2()
+//@   requires cc != nil && req != nil && cc.midHandlerContainer != nil
+//@   modifies anything
+//@   ensures [removes-own-entry] callCount(LoadAndDelete) == 1 && callArg(LoadAndDelete, 0, 1) == req.msg.MessageID
+//
+//@ func (*Conn) prepareWriteMessage(req *pool.Message, handler HandlerFunc) (closeFn func(), err error)
+//@   requires cc != nil && req != nil && cc.midHandlerContainer != nil
+//@   modifies anything
+//@   opaque-calls pure
+//@   ensures [only-confirmables-pend] old(req.msg.Type) != 0 ==> notCalled(LoadOrStore) && notCalled(acquireOutstandingInteraction) && err == nil
+//@   ensures [private-clone] called(LoadOrStore) ==> callCount(AcquireMessage) == 1 && callCount(Clone) == 1 && callArg(Clone, 0, 0) == req && callArg(Clone, 0, 1) == callRes(AcquireMessage, 0, 0) && callRes(Clone, 0, 0) == nil && callArg(LoadOrStore, 0, 2).private.msg == callRes(AcquireMessage, 0, 0)
+//@   ensures [own-mid] called(LoadOrStore) ==> callCount(LoadOrStore) == 1 && callArg(LoadOrStore, 0, 1) == req.msg.MessageID
+//@   ensures [clock-starts-with-slot] called(acquireOutstandingInteraction) && called(Now) ==> callSeq(acquireOutstandingInteraction, 0) < callSeq(Now, 0)
+//@   ensures [start-is-now] called(LoadOrStore) ==> callCount(Now) == 1 && callArg(LoadOrStore, 0, 2).start == callRes(Now, 0, 0) && atomicLoad(callArg(LoadOrStore, 0, 2).retransmit) == 0
+//@   ensures [no-slot-no-entry] called(acquireOutstandingInteraction) && callRes(acquireOutstandingInteraction, 0, 0) != nil ==> err != nil && notCalled(LoadOrStore)
+//@   ensures [duplicate-mid-gives-slot-back] called(LoadOrStore) && callRes(LoadOrStore, 0, 1) ==> err != nil && callCount(Execute) == 1
+//@   ensures [success-returns-cleanup] err == nil ==> closeFn != nil && callCount(ToFunction) == 1
+//
+// writeMessage / writeMessageAsync: whatever prepareWriteMessage entered is removed again by the
+// returned clean-up, which runs exactly once, on every path, after the attempt to send; nothing is sent
+// (and nothing needs removing) when the entry could not be made.
+//
+//@ func (*Conn) upsertControlInformation(req *pool.Message)
+//@   trusted
+//
+//@ func (*Conn) waitForAcknowledge(req *pool.Message, waitForResponseChan chan struct{}) (err error)
+//@   trusted
+//
+//@ func (*Conn) writeMessageAsync(req *pool.Message) (err error)
+//@   requires cc != nil && req != nil && cc.midHandlerContainer != nil
+//@   modifies anything
+//@   opaque-calls pure
+//@   ensures [prepares-once] callCount(prepareWriteMessage) == 1 && callArg(prepareWriteMessage, 0, 1) == req
+//@   ensures [not-entered-not-sent] callRes(prepareWriteMessage, 0, 1) != nil ==> err != nil && notCalled(WriteMessage) && notCalled(opaque)
+//@   ensures [cleanup-exactly-once] callRes(prepareWriteMessage, 0, 1) == nil ==> callCount(opaque) == 1 && callFn(opaque, 0) == callRes(prepareWriteMessage, 0, 0) && callCount(WriteMessage) == 1 && callSeq(WriteMessage, 0) < callSeq(opaque, 0)
+//
+//@ func (*Conn) writeMessage(req *pool.Message) (err error)
+//@   requires cc != nil && req != nil && cc.midHandlerContainer != nil
+//@   modifies anything
+//@   opaque-calls pure
+//@   ensures [one-way] callCount(prepareWriteMessage) + callCount(writeMessageAsync) == 1
+//@   ensures [not-entered-not-sent] called(prepareWriteMessage) && callRes(prepareWriteMessage, 0, 1) != nil ==> err != nil && notCalled(WriteMessage) && notCalled(opaque) && notCalled(waitForAcknowledge)
+//@   ensures [cleanup-exactly-once] called(prepareWriteMessage) && callRes(prepareWriteMessage, 0, 1) == nil ==> callCount(opaque) == 1 && callFn(opaque, 0) == callRes(prepareWriteMessage, 0, 0) && callCount(WriteMessage) == 1 && callSeq(WriteMessage, 0) < callSeq(opaque, 0)
+//@   ensures [waits-only-after-send] called(waitForAcknowledge) ==> callRes(WriteMessage, 0, 0) == nil && callSeq(WriteMessage, 0) < callSeq(waitForAcknowledge, 0) && callSeq(waitForAcknowledge, 0) < callSeq(opaque, 0)
+//@   ensures [ack-needed] called(prepareWriteMessage) && err == nil ==> called(waitForAcknowledge) && callRes(waitForAcknowledge, 0, 0) == nil
+//
+// AsyncPing: the ping is pending under its own fresh message ID; if it cannot be sent the entry is
+// removed at once, otherwise the caller receives the function that removes exactly that entry (and
+// releases the ping message, at most once since the removal is one-shot). The pong continuation
+// credits only an ACK or RST.
+//
+//@ func (*Conn) AsyncPing$1(w *responsewriter.ResponseWriter, r *pool.Message)
+//@   requires r != nil
+//@   modifies anything
+//@   opaque-calls pure
+//@   ensures [only-ack-or-rst] called(receivedPong) <==> (r.msg.Type == 3 || r.msg.Type == 2)
+//@   ensures [once] callCount(receivedPong) <= 1
+//
+//@ func (*Conn) AsyncPing$2()
+//@   requires cc != nil && cc.midHandlerContainer != nil
+//@   modifies anything
+//@   lockinv [no-nil-element] forall k int :: {present(cc.midHandlerContainer.data, k)} present(cc.midHandlerContainer.data, k) ==> cc.midHandlerContainer.data[k] != nil
+//@   ensures [removes-own-entry] callCount(LoadAndDelete) == 1 && callArg(LoadAndDelete, 0, 1) == mid
+//@   ensures [releases-iff-removed] called(ReleaseMessage) <==> callRes(LoadAndDelete, 0, 1)
+//
+//@ func (*Conn) AsyncPing(receivedPong func()) (cancel func(), err error)
+//@   requires cc != nil && cc.midHandlerContainer != nil
+//@   modifies anything
+//@   opaque-calls pure
+//@   lockinv [no-nil-element] forall k int :: {present(cc.midHandlerContainer.data, k)} present(cc.midHandlerContainer.data, k) ==> cc.midHandlerContainer.data[k] != nil
+//@   ensures [own-fresh-mid] callCount(GetMessageID) == 1 && callCount(LoadOrStore) == 1 && callArg(LoadOrStore, 0, 1) == callRes(GetMessageID, 0, 0)
+//@   ensures [duplicate-mid-not-sent] callRes(LoadOrStore, 0, 1) ==> err != nil && notCalled(WriteMessage) && notCalled(LoadAndDelete)
+//@   ensures [send-failure-removed] called(WriteMessage) && callRes(WriteMessage, 0, 0) != nil ==> err != nil && callCount(LoadAndDelete) == 1 && callArg(LoadAndDelete, 0, 1) == callRes(GetMessageID, 0, 0)
+//@   ensures [success-hands-over-cleanup] err == nil ==> cancel != nil && notCalled(LoadAndDelete) && callCount(WriteMessage) == 1
